@@ -462,6 +462,10 @@ func (s *ctlSys) Enabled() []verifrt.Event {
 			if cur != nil {
 				evs = append(evs, verifrt.Event{Kind: "del", A: i, User: true})
 			}
+			if cur != nil && readFaultMenu {
+				// the informer delivers the unchanged object once more (periodic re-sync, reconnect): at-least-once delivery
+				evs = append(evs, verifrt.Event{Kind: "touch", A: i, User: true})
+			}
 		}
 		if (poolFaultMenu || poolResyncMenu) && s.quiescent() {
 			// an event that re-runs the pool reconciler although nothing it reads changed (a namespace gets an unrelated label,
@@ -562,6 +566,9 @@ func (s *ctlSys) Apply(ev verifrt.Event) {
 		s.lastUserDesc = "layout"
 		s.setLayoutObjects(ev.A)
 		s.poolQ.Add("pool")
+	case "touch":
+		s.lastUserDesc = "redelivery"
+		s.svcQ.Add(s.u.Slots[ev.A].Key())
 	case "poolresync":
 		s.lastUserDesc = "pool-resync"
 		s.poolQ.Add("pool")
